@@ -29,8 +29,9 @@ ASSUMPTIONS = ['Python equality (True == 1) is accepted',
                'tables with a key longer than 128 characters exempt',
                'None as a table is the documented "no table" (== empty '
                'table) and is exempt',
-               'a decoder raising on encoder output is counted, not a '
-               'violation of this property']
+               'bytes that the decoder refuses do not "decode back to the '
+               'input": reported (they were only counted until D14 was '
+               'repaired)']
 
 PAIRS = [
     ('boolean', 'boolean'), ('byte_array', 'byte_array'),
@@ -243,9 +244,10 @@ def _prim(case, rec):
     rec.nt(canon.digest((enc, v)))
     d = call(dfn, data)
     if not d.ok:
-        rec.count('decoder_raised_on_encoder_output')
-        rec.note('decode.%s raised on encode.%s(%s) output: %s'
-                 % (dec, enc, diff.bucket(v), d.describe()[:100]))
+        rec.violation('undecodable-output:%s:%s' % (enc, diff.bucket(v)),
+                      'encode.%s(%s) returned %d bytes that decode.%s '
+                      'refuses: %s' % (enc, _short(v), len(data), dec,
+                                       d.describe()[:100]), case)
         return
     consumed, got = d.value
     try:
@@ -337,7 +339,10 @@ def _method(case, rec):
     rec.nt(canon.digest((case['index'], arg, v)))
     u = common.lib_unmarshal(m.value)
     if not u.ok:
-        rec.count('decoder_raised_on_encoder_output')
+        rec.violation('undecodable-output:arg:%s:%s' % (wt, diff.bucket(v)),
+                      '%s.%s = %s was marshalled without error into a frame '
+                      'that frame.unmarshal refuses: %s'
+                      % (spec.name, arg, _short(v), u.describe()[:100]), case)
         return
     g = u.value[2]
     got = boundary.method_values(g, spec)
@@ -414,7 +419,11 @@ def _prop(case, rec):
     rec.nt(canon.digest((name, v)))
     u = common.lib_unmarshal(m.value)
     if not u.ok:
-        rec.count('decoder_raised_on_encoder_output')
+        rec.violation('undecodable-output:prop:%s:%s' % (name,
+                                                         diff.bucket(v)),
+                      'property %s = %s was marshalled without error into a '
+                      'frame that frame.unmarshal refuses: %s'
+                      % (name, _short(v), u.describe()[:100]), case)
         return
     got = boundary.props_values(u.value[2].properties)
     try:
@@ -517,9 +526,12 @@ def _frame(case, rec):
     rec.nt(canon.digest((slot, v)))
     u = common.lib_unmarshal(m.value)
     if not u.ok:
-        rec.count('decoder_raised_on_encoder_output')
-        rec.note('frame.unmarshal raised on the marshal output for %s = %s: '
-                 '%s' % (slot, diff.bucket(v), u.describe()[:100]))
+        rec.violation('undecodable-output:frame:%s:%s' % (slot,
+                                                          diff.bucket(v)),
+                      '%s = %s was marshalled without error into %d bytes '
+                      'that frame.unmarshal refuses: %s'
+                      % (slot, _short(v), len(m.value), u.describe()[:100]),
+                      case)
         return
     gch, g = u.value[1], u.value[2]
     got = {}
